@@ -287,11 +287,13 @@ func (s *verifC41Scn) op(ws []string) string {
 	return "bad-op"
 }
 
-func verifC41Scenario(t *testing.T, lines []string) (out []string) {
+func verifC41Scenario(t *testing.T, lines []string, emit func(string)) {
+	cnt := 0
+	out := verifC41Out{emit: emit, n: &cnt}
 	defer func() {
 		if r := recover(); r != nil {
-			for len(out) < len(lines) {
-				out = append(out, fmt.Sprintf("PANIC %v", r))
+			for cnt < len(lines) {
+				out.add(fmt.Sprintf("PANIC %v", r))
 			}
 		}
 	}()
@@ -321,9 +323,9 @@ func verifC41Scenario(t *testing.T, lines []string) (out []string) {
 		if err := n.Run(); err != nil {
 			panic(err)
 		}
-		out = append(out, s.obs("-"))
+		out.add(s.obs("-"))
 		for _, l := range lines[1:] {
-			out = append(out, s.op(strings.Fields(l)))
+			out.add(s.op(strings.Fields(l)))
 		}
 		// tear down: release held publishes, let deadlines pass, stop the node
 		for _, sv := range s.svs {
@@ -337,7 +339,16 @@ func verifC41Scenario(t *testing.T, lines []string) (out []string) {
 		_ = n.Shutdown(context.Background())
 		synctest.Wait()
 	})
-	return out
+}
+
+type verifC41Out struct {
+	emit func(string)
+	n    *int
+}
+
+func (o verifC41Out) add(l string) {
+	*o.n++
+	o.emit(l)
 }
 
 func TestVerifC41(t *testing.T) {
@@ -359,6 +370,32 @@ func TestVerifC41(t *testing.T) {
 	for sc.Scan() {
 		lines = append(lines, sc.Text())
 	}
+	// watchdog outside the bubble (real time): a scenario that cannot finish must not hang the check;
+	// the run is cut short and the check treats the rest as not executed.
+	var wmu sync.Mutex
+	progress := make(chan struct{}, 1)
+	go func() {
+		for {
+			select {
+			case <-progress:
+			case <-time.After(90 * time.Second):
+				wmu.Lock()
+				fmt.Fprintln(w, "HARNESS-TIMEOUT")
+				w.Flush()
+				os.Exit(0)
+			}
+		}
+	}()
+	emit := func(l string) {
+		wmu.Lock()
+		fmt.Fprintln(w, l)
+		w.Flush()
+		wmu.Unlock()
+		select {
+		case progress <- struct{}{}:
+		default:
+		}
+	}
 	for i := 0; i < len(lines); {
 		ws := strings.Fields(lines[i])
 		if len(ws) == 2 && ws[0] == "reset" {
@@ -366,10 +403,7 @@ func TestVerifC41(t *testing.T) {
 			for j < len(lines) && !strings.HasPrefix(lines[j], "reset") {
 				j++
 			}
-			for _, o := range verifC41Scenario(t, lines[i:j]) {
-				fmt.Fprintln(w, o)
-			}
-			w.Flush()
+			verifC41Scenario(t, lines[i:j], emit)
 			i = j
 		} else {
 			fmt.Fprintln(w, "bad-op")
